@@ -188,6 +188,48 @@ def judge(res, tree, dm, msg, sender, recs, uid, st, site, wit, rng):
     return visible
 
 
+def handoff(res, R, sender, recs, site, wit):
+    """(6) give the tree qmail-queue left behind to the real qmail-send: what it preprocesses must be exactly the
+    supplied envelope (sender in info/N, one record per recipient in order over local/N and remote/N)"""
+    from .. import qsim
+    todo = os.listdir(R.home + "/queue/todo")
+    if len(todo) != 1 or sender is None or not recs:
+        return          # a message without recipients is finished at once; nothing to compare
+    n = todo[0]
+    sim = qsim.Sim(R.b, home=R.home, reuse_home=True, gate_m=False, controls={"me": "local.test", "locals": ["local.test"],
+                                                                            "concurrencylocal": 0, "concurrencyremote": 0})
+    try:
+        sim.clock.set(R.clock.now())
+        sim.start_daemons()
+        sim.run_until_quiescent()
+        sub = str(int(n) % SPLIT)
+        got = []
+        for d in ("local", "remote"):
+            p = os.path.join(R.home, "queue", d, sub, n)
+            if os.path.exists(p):
+                for r in open(p, "rb").read().split(b"\0")[:-1]:
+                    got.append(r[1:])
+        ip = os.path.join(R.home, "queue", "info", sub, n)
+        info = open(ip, "rb").read() if os.path.exists(ip) else None
+        res.counters.inc("handed_to_qmail_send")
+        want = [r if b"@" in r else r + b"@local.test" for r in recs]
+        if info is None or os.path.exists(os.path.join(R.home, "queue/todo", n)):
+            res.violate("C01/daemon-did-not-accept-visible-entry/" + site, "todo/%s was visible but qmail-send did not preprocess it; log %r" % (n, sim.dlog[-200:]), wit)
+        elif info != b"F" + sender + b"\0":
+            res.violate("C01/daemon-sees-other-sender/" + site, "info/%s holds %r, supplied sender %r" % (n, info[:80], sender[:80]), wit)
+        elif sorted(got) != sorted(want):
+            res.violate("C01/daemon-sees-other-recipients/" + site, "channel records %r, supplied recipients %r" % (got[:5], recs[:5]), wit)
+    except (qsim.DaemonExit, core.Inconclusive) as e:
+        res.inconclusive.append("hand-off to qmail-send: %s" % str(e)[:200])
+    finally:
+        sim.teardown()
+        for f in ("gate", "evlog", "clock.sim"):
+            try:
+                os.unlink(os.path.join(R.home, f))
+            except OSError:
+                pass
+
+
 def check_order(res, evs, site, wit):
     """ordering assertions over the event log of one run (independent of the sweeps)"""
     alarm = [e for e in evs if e["c"] == "alarm"]
@@ -349,6 +391,9 @@ def worker(bdir, tier, lo, hi, sweep_every):
             res.violate("C01/exit-code/%s/expected-%s" % (cls, "-".join(str(x) for x in sorted(allowed))),
                         "exit status %s for envelope class %s (documented: %s)" % (ss, label, sorted(allowed)), wit0)
         judge(res, tree, dm, msg, sender, recs, uid, st, "no-fault", wit0, rng)
+        if tree["todo"] and (tier == "thorough" or idx % 5 == 0) and sender is not None and all(32 < c < 127 for r in recs + [sender] for c in r) \
+                and all(b"@" in r and not r.endswith(b"@") and b"%" not in r for r in recs):
+            handoff(res, R, sender, recs, "no-fault", wit0)
         if code != 0 and tree["todo"]:
             res.violate("C01/failure-but-visible/no-fault", "exit %s but a todo entry exists" % ss, wit0)
         check_order(res, evs, "no-fault", wit0)
@@ -373,6 +418,9 @@ def worker(bdir, tier, lo, hi, sweep_every):
                 dm2.feed(x)
             site = "crash-before-%s" % (e["c"] + ("-" + e.get("path2", e.get("path", "")).split("/")[1] if "/" in e.get("path2", e.get("path", "")) else ""))
             judge(res, t2, dm2, msg, sender, recs, uid, st2, site, wit, rng)
+            if t2["todo"] and (tier == "thorough" or idx % 5 == 0) and sender is not None and all(32 < c < 127 for r in recs + [sender] for c in r) \
+                    and all(b"@" in r and not r.endswith(b"@") and b"%" not in r for r in recs):
+                handoff(res, R, sender, recs, site, wit)
             res.nontrivial("crash", label, k)
         # (3) single-fault sweep over every call site (reads included) on a subset of inputs
         if idx % sweep_every == 0 or cls == "malformed" and idx % (sweep_every * 2) == 1:
